@@ -46,6 +46,8 @@ fn main() {
         "yo-malformed" => streams::yo(&mut rng, count, true, &mut emit),
         "parse" => streams::parse(&mut rng, count, &mut emit),
         "lex" => streams::lex(&mut rng, count, &mut emit),
+        "region" => streams::region(&mut rng, count, &mut emit),
+        "diag" => streams::diag(&mut rng, count, &mut emit),
         "literal" => streams::literal(&mut rng, count, &mut emit),
         "table" => streams::table(&mut rng, count, &mut emit),
         "options" => streams::options(&mut rng, count, &mut emit),
